@@ -47,8 +47,8 @@ OPS = [
     ("is_none->is_some", r"\.is_none\(\)", ".is_some()"),
     ("any->all", r"\.any\(", ".all("),
     ("all->any", r"\.all\(", ".any("),
-    ("is_empty-negated", r"(?<!!)(\b[\w.()]+)\.is_empty\(\)", r"!\1.is_empty()"),
-    ("is_full-negated", r"(?<!!)(\b[\w.()]+)\.is_full\(\)", r"!\1.is_full()"),
+    ("is_empty-negated", r"(?<![\w.!])([A-Za-z_][\w.]*(?:\(\))?)\.is_empty\(\)", r"!\1.is_empty()"),
+    ("is_full-negated", r"(?<![\w.!])([A-Za-z_][\w.]*(?:\(\))?)\.is_full\(\)", r"!\1.is_full()"),
     ("Some->None-result", r"\bOk\(Some\(([^()]+)\)\)", "Ok(None)"),
 ]
 # numeric literals: n -> n+1 and n -> n-1 (not in attribute / type positions)
